@@ -9,6 +9,7 @@
 (*   "suffix0"   "-0" read as "0-"                                                             *)
 (*   "oversuffix" a suffix longer than the resource is unsatisfiable                           *)
 (*   "ifr_weak"  If-Range compares opaque tags only (weakness dropped)                         *)
+(*   "range_first" a Range header is processed before the validators (206 where a 304 is due) *)
 (* and three more broken variants used for non-vacuity (never in the code):                    *)
 (*   "ims_lt" (date must be strictly later), "no_prec" (If-Modified-Since can override a       *)
 (*   failed If-None-Match), "off_by_one" (stop = last instead of last + 1).                    *)
@@ -85,7 +86,19 @@ RangeInit ==
     \E rg \in {Absent} \cup {Hdr(TRUE, t) : t \in RangeTexts} :
       /\ req = MkReq(m, Absent, Absent, Absent, ifr, rg)
       /\ rep = MkRep(e, lm, n)
-Init == IF Family = "validators" THEN ValidatorInit ELSE RangeInit
+RangeTextsSmall ==
+  {BYTES \o <<EQ>> \o s : s \in {<<48, DASH, 48>>, <<49, DASH>>, <<DASH, 49>>, <<57, DASH>>, <<DASH, 48>>, <<48, DASH, 57>>, <<DASH, 57>>,
+                                 <<48, DASH, 48, COMMA, 50, DASH, 50>>, <<97, DASH>>}}
+  \cup {<<105, 116, 101, 109, 115>> \o <<EQ>> \o <<49, DASH, 50>>, BYTES}
+RangeCondInit ==
+  \E m \in Methods, e \in Etags, lm \in Lms, n \in 0..MaxLen, rg \in RangeTextsSmall :
+    \E ims \in {Absent} \cup {Hdr(TRUE, DateTexts[i]) : i \in {1, 2, 3, 4}} :
+    \E c \in {<<Absent, Absent>>} \cup {<<Hdr(TRUE, t), Absent>> : t \in {<<STAR>>, T(A, FALSE), T(A, TRUE), T(B, FALSE), T(AB, FALSE), A}}
+             \cup (IF e.p THEN {<<Absent, Hdr(TRUE, t)>> : t \in {<<STAR>>, T(A, FALSE), T(B, FALSE)}} ELSE {}) :
+      /\ c[1].p \/ c[2].p \/ ims.p
+      /\ req = MkReq(m, c[1], c[2], ims, Absent, Hdr(TRUE, rg))
+      /\ rep = MkRep(e, lm, n)
+Init == IF Family = "validators" THEN ValidatorInit ELSE IF Family = "rangecond" THEN RangeCondInit ELSE RangeInit
 NoNext == FALSE /\ UNCHANGED vars
 
 \* ---------------------------------------------------------------- the decision procedure, written like the code
@@ -133,7 +146,8 @@ FullObs(status) == Obs(status, <<>>, DigitsOf(rep.length), IF req.method = "HEAD
 ImplObs ==
   IF ~(req.method \in {"GET", "HEAD"}) THEN FullObs(200)
   ELSE LET processable == (~req.ifr_p \/ ImplUnmodified(TRUE)) /\ req.range_p IN
-       IF rep.length # 0 /\ processable
+       IF ~D("range_first") /\ ImplUnmodified(FALSE) THEN FullObs(IF req.im_p /\ req.im # <<>> THEN 412 ELSE 304)
+       ELSE IF rep.length # 0 /\ processable
        THEN LET iv == ImplRange IN
             IF iv[1] >= iv[2] THEN Obs(416, <<>>, <<>>, <<>>)
             ELSE Obs(206, <<98, 121, 116, 101, 115, 32>> \o DigitsOf(iv[1]) \o <<DASH>> \o DigitsOf(iv[2] - 1) \o <<47>> \o DigitsOf(rep.length),
@@ -141,9 +155,9 @@ ImplObs ==
        ELSE IF ImplUnmodified(FALSE) THEN FullObs(IF req.im_p /\ req.im # <<>> THEN 412 ELSE 304)
        ELSE FullObs(200)
 
-TheVerdict == Verdict(req, rep, ImplObs)
+TheVerdict == IF Family = "rangecond" THEN VerdictRC(req, rep, ImplObs) ELSE Verdict(req, rep, ImplObs)
 ImplMeetsContract == IF TheVerdict = "ok" THEN TRUE ELSE PrintT(<<"clause", TheVerdict, req, rep, ImplObs>>) /\ FALSE
-UniverseInDomain == InDomain(req, rep)
+UniverseInDomain == IF Family = "rangecond" THEN InDomainRC(req, rep) ELSE InDomain(req, rep)
 \* the spec's own parsers on the universe: dates parse, tag lists are well formed, garbage is garbage
 ParsersOK == /\ \A i \in 1..Len(DateTexts) : ParseDate(DateTexts[i]).ok
              /\ ~ParseDate(GarbageDate).ok
